@@ -118,8 +118,13 @@ type aofRun struct {
 	restores int
 	acked    int
 	minDl    map[string]int64 // db/key -> earliest deadline it ever carried (acknowledged states)
+	rewritesSinceRecovery int
+	tainted               bool   // the preamble on disk was written from a state holding JSON-lossy values
+	crashSites            []string
+	rewriteCrashSite      string // set when a crash hit a REWRITEAOF in flight; cleared by the next completed rewrite
 	randKeys map[string]bool  // db/key touched by a write command whose effect is random by design (SPOP)
 	skipped  int
+	hasRewrite bool
 }
 
 var runCounter atomic.Int64
@@ -209,6 +214,22 @@ func (a *aofRun) avoidRewrite(args []string) ([]string, bool) {
 			}
 		}
 	}
+	if a.hasRewrite && Avoiding(a.p, a.prop+"/retyped-by-preamble") {
+		if sp := specByName[name]; sp != nil && (sp.Family == "list" || sp.Family == "set" || sp.Family == "zset") {
+			return args, true
+		}
+		switch name {
+		case "HINCRBY", "HINCRBYFLOAT", "INCRBYFLOAT":
+			return args, true
+		}
+		for _, x := range args[1:] {
+			if _, err := strconv.ParseFloat(strings.TrimSpace(x), 64); err == nil && !(name == "INCRBY" || name == "DECRBY" || name == "SETRANGE" || name == "GETEX" || strings.HasPrefix(name, "EXPIRE") || strings.HasPrefix(name, "PEXPIRE")) {
+				if name == "SET" || name == "MSET" || name == "APPEND" || name == "HSET" || name == "HSETNX" {
+					return args, true
+				}
+			}
+		}
+	}
 	if name == "SPOP" && Avoiding(a.p, a.prop+"/nondeterministic-replay") {
 		return args, true
 	}
@@ -279,20 +300,28 @@ func (a *aofRun) recover(image string, minIdx int, extra []map[string]string, ho
 	}
 	want := prev[len(prev)-1]
 	diff := DiffData(got, strip(want), "restored", "expected", 5)
-	// known root causes are recognised against EVERY admissible state, not only the last one
+	// known root causes are recognised against EVERY admissible state, not only the last one:
+	// a difference on a key is "explained" when one of the lenses below accounts for it.
 	cands := append([]map[string]string{}, extra...)
 	for j := minIdx; j < len(prev); j++ {
 		if j >= 0 {
 			cands = append(cands, prev[j])
 		}
 	}
-	for _, root := range []string{"deadline-drift", "expired-key-replay", "nondeterministic-replay"} {
-		for _, c := range cands {
-			if a.equalModulo(root, got, strip(c), now) {
-				a.fail(root, fmt.Sprintf("%s: restored dataset differs from an admissible state only by %s (sync=%s): %s", how, root, a.p.SK("sync"), DiffData(got, strip(c), "restored", "expected", 5)))
-				return false
-			}
+	if a.tainted {
+		a.fail("retyped-by-preamble", fmt.Sprintf("%s: the preamble written by REWRITEAOF held values whose type does not survive its JSON encoding (numbers, lists, sets, sorted sets); restored dataset: %s", how, diff))
+		return false
+	}
+	for _, c := range cands {
+		if lens := a.explain(got, strip(c), now); lens != "" {
+			a.fail(lens, fmt.Sprintf("%s: restored dataset differs from an admissible state only in ways explained by [%s] (sync=%s): %s", how, lens, a.p.SK("sync"), DiffData(got, strip(c), "restored", "expected", 5)))
+			return false
 		}
+	}
+	if a.rewriteCrashSite != "" {
+		a.fail("rewrite-crash@"+a.rewriteCrashSite, fmt.Sprintf("%s: after a crash at %s during REWRITEAOF the data directory no longer restores to a state the server passed through (%d states, admissible from #%d, sync=%s): %s",
+			how, a.rewriteCrashSite, len(prev), minIdx, a.p.SK("sync"), diff))
+		return false
 	}
 	if matched >= 0 {
 		a.fail(a.classify("missing-acked", how, got, strip(want)), fmt.Sprintf("%s: restored dataset equals the state after acknowledged write #%d but writes up to #%d were acknowledged and had to survive (sync=%s): %s", how, matched, len(prev)-1, a.p.SK("sync"), diff))
@@ -302,8 +331,11 @@ func (a *aofRun) recover(image string, minIdx int, extra []map[string]string, ho
 	return false
 }
 
-// equalModulo: are got and want equal once the differences explained by a known root cause are ignored?
-func (a *aofRun) equalModulo(root string, got, want map[string]string, now int64) bool {
+// explain returns the name of the lens (known root cause) that accounts for ALL differences between
+// got and want, or "" if some difference is not explained. When several lenses are needed the one
+// that is not an open finding wins (so that a new root cause is never hidden behind a recorded one);
+// among recorded ones the order is retyped > expired-key > deadline-drift > nondeterministic.
+func (a *aofRun) explain(got, want map[string]string, now int64) string {
 	body := func(v string) string {
 		if i := strings.LastIndex(v, " @"); i >= 0 {
 			return v[:i]
@@ -317,29 +349,98 @@ func (a *aofRun) equalModulo(root string, got, want map[string]string, now int64
 	for k := range got {
 		keys[k] = true
 	}
-	n := 0
+	used := map[string]bool{}
 	for k := range keys {
-		if got[k] == want[k] {
+		g, w := got[k], want[k]
+		if g == w {
 			continue
 		}
-		n++
-		switch root {
-		case "deadline-drift":
-			if got[k] == "" || want[k] == "" || body(got[k]) != body(want[k]) {
-				return false
+		switch {
+		case g != "" && w != "" && body(g) == body(w):
+			used["deadline-drift"] = true
+		case a.randKeys[k]:
+			used["nondeterministic-replay"] = true
+		case a.hadDeadlinePassed(k, now):
+			used["expired-key-replay"] = true
+		case a.rewrites > 0 && g != "" && w != "" && jsonProjection(body(g)) == jsonProjection(body(w)):
+			used["retyped-by-preamble"] = true
+			if g[len(body(g)):] != w[len(body(w)):] {
+				used["deadline-drift"] = true
 			}
-		case "expired-key-replay":
-			deadlineOnly := got[k] != "" && want[k] != "" && body(got[k]) == body(want[k])
-			if dl, ok := a.minDl[k]; (!ok || dl > now) && !deadlineOnly {
-				return false
-			}
-		case "nondeterministic-replay":
-			if !a.randKeys[k] {
-				return false
-			}
+		default:
+			return ""
 		}
 	}
-	return n > 0
+	if len(used) == 0 {
+		return ""
+	}
+	order := []string{"retyped-by-preamble", "expired-key-replay", "deadline-drift", "nondeterministic-replay"}
+	for _, l := range order {
+		if used[l] && !openSigs[a.prop+"/"+l] {
+			return l
+		}
+	}
+	for _, l := range order {
+		if used[l] {
+			return l
+		}
+	}
+	return ""
+}
+
+func (a *aofRun) hadDeadlinePassed(k string, now int64) bool {
+	dl, ok := a.minDl[k]
+	return ok && dl <= now
+}
+
+// blameSite: among the crash sites hit during rewrites since the last completed rewrite, the earliest
+// one that lies inside the replacement of the two files; if none does, the latest site.
+func blameSite(sites []string) string {
+	dangerous := map[string]bool{"aof.pre.write": true, "aof.pre.sync": true, "rewrite.after_preamble": true,
+		"aof.log.truncate": true, "aof.log.write": true, "aof.log.sync": true}
+	for _, s := range sites {
+		if dangerous[s] {
+			return s
+		}
+	}
+	if len(sites) > 0 {
+		return sites[len(sites)-1]
+	}
+	return ""
+}
+
+// lossy: does the dataset hold a value the JSON preamble/snapshot encoding of the pinned tree cannot represent?
+func lossy(m map[string]string) bool {
+	for _, v := range m {
+		if jsonProjection(v) != v {
+			return true
+		}
+	}
+	return false
+}
+
+// jsonProjection maps a rendered entry to what survives a round trip through the JSON preamble/snapshot
+// encoding of the pinned tree: numbers lose int/float distinction, lists become untyped arrays,
+// sets and sorted sets become empty objects.
+func jsonProjection(v string) string {
+	dl := ""
+	if i := strings.LastIndex(v, " @"); i >= 0 {
+		dl = v[i:]
+		v = v[:i]
+	}
+	switch {
+	case strings.HasPrefix(v, "int:"):
+		v = "num:" + v[4:]
+	case strings.HasPrefix(v, "float:"):
+		v = "num:" + v[6:]
+	case strings.HasPrefix(v, "list:"), strings.HasPrefix(v, "other:[]interface"):
+		v = "array"
+	case strings.HasPrefix(v, "set:"), strings.HasPrefix(v, "zset:"):
+		v = "hash:{}"
+	case strings.HasPrefix(v, "hash:"):
+		v = strings.ReplaceAll(strings.ReplaceAll(v, "=\"i:", "=\"n:"), "=\"f:", "=\"n:")
+	}
+	return v + dl
 }
 
 // classify refines the anomaly with what differs (wrong db, deadline drift, retyped, lost...)
@@ -431,6 +532,11 @@ func runAOF(t *testing.T, p *Plan, prop string) *Outcome {
 		s.install()
 		defer s.uninstall()
 		a.dice = p.NewDice()
+		for _, op := range p.Ops {
+			if op.Kind == "rewrite" {
+				a.hasRewrite = true
+			}
+		}
 		a.tcpdb, a.embdb = p.K("tcpdb"), p.K("embdb")
 		dir := filepath.Join(a.root, "gen0")
 		_ = os.MkdirAll(dir, 0o755)
@@ -573,6 +679,11 @@ func (a *aofRun) runSeq() {
 					}
 				}
 				how := mode + "@" + a.disk.FiredAt
+				if op.Kind == "rewrite" {
+					a.crashSites = append(a.crashSites, a.disk.FiredAt)
+					a.rewriteCrashSite = blameSite(a.crashSites)
+					a.tainted = a.tainted || lossy(inflight[0])
+				}
 				if !a.recover(a.nextImage(a.disk.Image), min, inflight, how) {
 					return
 				}
@@ -587,6 +698,11 @@ func (a *aofRun) runSeq() {
 				return
 			}
 			a.acked++
+			if op.Kind == "rewrite" {
+				a.rewriteCrashSite = "" // a completed rewrite replaces both files
+				a.crashSites = nil
+				a.tainted = lossy(a.dump())
+			}
 			a.states = append(a.states, a.dump())
 			if a.p.SK("sync") == "always" || a.disk.PendingOps("aof/log.aof") == 0 {
 				a.syncedUp = len(a.states) - 1
